@@ -1,0 +1,14 @@
+//go:build verif
+
+// Contracts for govc (contract-based deductive verification, /verif). Comment-only file:
+// it is compiled only under the build tag "verif" and contains no code.
+
+package trie
+
+//@ spec trieHit(t *Trie, key string) bool := abstract
+
+//@ func (*Trie).Get
+//@   props C10
+//@   trusted lookups write nothing (the trie's matching rules themselves are not verified here)
+//@   modifies nothing
+//@   ensures result1 == trieHit(t, joinOf(path, "."))
